@@ -480,8 +480,6 @@ def _same_stmt(a, b, envs):
             return False
         if a.expression == b.expression:
             return True
-        if a.expression.free_symbols != b.expression.free_symbols:
-            return False
         for env, _, _ in envs:
             try:
                 if not close(ev(a.expression, env, {"A_CENTRAL": 1.5, "A_PERIPHERAL": 2.5}),
